@@ -323,6 +323,15 @@ Proof.
       eapply (sfw_mk st st2 st2 K W); try reflexivity.
       * rewrite (kr_frames _ _ K). exact Hf.
       * rewrite (kr_md _ _ K), Hm. exact Hp.
+  - destruct (new_fut (emit st (EvStart id (time st)))) as [st1 f] eqn:E1.
+    assert (K1 : krel st st1) by (unfold new_fut in E1; inversion E1; k3).
+    pose proof (krel_call_at st1 (time st1 + d) (HSetExc f) eq_refl) as K2.
+    destruct (call_at st1 (time st1 + d) (HSetExc f)) as [st2 h]. cbn [fst] in K2.
+    pose proof (krel_trans _ _ _ K1 K2) as K.
+    apply sfw_do_yield; [|intros i E; discriminate].
+    eapply (sfw_mk st st2 st2 K W); try reflexivity.
+    + rewrite (kr_frames _ _ K). exact Hf.
+    + rewrite (kr_md _ _ K), Hm. exact Hp.
   - apply sfw_do_yield; [keep_tac Keep Hf Hm Hp|intros i E; discriminate].
   - discriminate.
   - keep_tac Keep Hf Hm Hp.
@@ -338,7 +347,7 @@ Proof.
   - destruct (nth_scope st k) as [sid|]; [|keep_tac Keep Hf Hm Hp].
     pose proof (krel_scope_reschedule st sid (match d with Some d0 => Some (time st + d0) | None => None end)) as K.
     eapply (sfw_mk st _ _ K W); try reflexivity.
-    cbn [frames set_md]. rewrite (kr_frames _ _ K). exact Hf.
+    cbn [frames set_md emit set_trace]. rewrite (kr_frames _ _ K). exact Hf.
   - apply Keep; try reflexivity.
     + cbn [frames set_md push set_frames forallb frame_sf]. exact Hf.
     + exact Hp.
@@ -510,6 +519,7 @@ Proof.
     + apply sfw_task_step; assumption.
     + apply sfw_run_cb; assumption.
     + destruct (f_st (get_fut _ f)); try exact W2; (eapply sfw_of_krel_loop; [apply krel_fut_finish|exact W2]).
+    + eapply sfw_of_krel_loop; [apply krel_fut_finish|exact W2].
     + eapply sfw_of_krel_loop; [apply krel_scope_cancel|exact W2].
     + eapply sfw_of_krel_loop; [apply krel_deliver|exact W2].
     + unfold h_ok in Hh. rewrite Ek in Hh. discriminate.
